@@ -555,6 +555,8 @@ class Engine:
         self.var_names = []
         self.format_hook = lambda v, spec: format(repr(v), "")
         self.on_path_end = None
+        self.big_validate = None   # callback(values, choices, sym_obs) for solver-chosen LARGE models of the path condition
+        self.big_every = 1
         self.user = {}
         self.var_bounds = {}
         if mode == "conc":
@@ -915,6 +917,8 @@ class Engine:
                 self.stats["paths"] += 1
                 if validate is not None:
                     self._validate(validate)
+                if self.big_validate is not None and (self.stats["paths"] <= 4 or self.stats["paths"] % self.big_every == 0):
+                    self._big_validate()
                 if self.on_path_end is not None:
                     self.on_path_end(self)
             self.solver.pop()
@@ -953,6 +957,50 @@ class Engine:
                 f"symbolic/concrete observation count differs: {len(sym_obs)} vs "
                 f"{len(conc_obs)}; values={values} choices={self.choice_log}")
         self.stats["validated"] += 1
+
+
+BIG = 2 ** 24 + 1   # first integer float32 cannot represent
+
+
+def _big_patterns(names):
+    """Constraint patterns for the large models: all inputs large (pairwise different, odd offsets), only the first /
+    only the last input large and the others small."""
+    n = len(names)
+    yield "all-large", {nm: ("ge", BIG + 2 * i) for i, nm in enumerate(names)}
+    if n > 1:
+        yield "first-large", {nm: (("ge", BIG) if i == 0 else ("le", 3)) for i, nm in enumerate(names)}
+        yield "last-large", {nm: (("ge", BIG) if i == n - 1 else ("le", 3)) for i, nm in enumerate(names)}
+
+
+def _engine_big_validate(self):
+    """The solver is asked for models of the path condition in which the unbounded inputs are LARGE (>= 2**24+1, where
+    float32 stops representing every integer); each such model is run concretely on the un-instrumented library with the
+    same choices.  The callback judges the concrete run (oracles in concrete mode) and compares its observations with
+    the symbolic ones evaluated under that model."""
+    names = [n for n, (lo, hi) in self.var_bounds.items()
+             if hi is None and n in self.vars and not n.startswith(("clock", "cp", "r_", "rnd"))]
+    if not names:
+        return
+    for label, pat in _big_patterns(names):
+        self.solver.push()
+        for nm, (op, val) in pat.items():
+            self.solver.add(self.vars[nm] >= val if op == "ge" else self.vars[nm] <= val)
+        t0 = time.time()
+        r = self.solver.check()
+        self.stats["solver_s"] += time.time() - t0
+        self.stats["sat" if r == z3.sat else "unsat" if r == z3.unsat else "unknown"] += 1
+        m = self.solver.model() if r == z3.sat else None
+        values = sym_obs = None
+        if m is not None:
+            values = self.model_values(m)
+            sym_obs = [(l, _norm(self.eval(v, m))) for l, v in self.obs]
+        self.solver.pop()
+        if m is not None:
+            self.stats["big_models"] = self.stats.get("big_models", 0) + 1
+            self.big_validate(values, list(self.choice_log), sym_obs, label)
+
+
+Engine._big_validate = _engine_big_validate
 
 
 def _norm(v):
